@@ -14,7 +14,7 @@
                                                              kind 2: inverse-CDF symbol, table tabref/1000 from offset tabref%1000
                                                              kind 8: sign symbol, table {T[32][tabref], 0}
                                                              the first nidx ops are the side information, the rest the excitation
-     O id fs ch ms bitrate cx seed n                         n packets of the real Opus encoder, speech mode, mono/stereo, no FEC:
+     O id fs ch ms bitrate cx seed n fec                     n packets of the real Opus encoder, speech mode, mono/stereo, in-band FEC on/off:
                                                              the bytes and both final ranges are recorded (the model parses them) */
 #ifdef HAVE_CONFIG_H
 #include "config.h"
@@ -223,6 +223,21 @@ static void frame_case(char *line)
       int byDelta = cond == CODE_CONDITIONALLY && prevSig == TYPE_VOICED && delta >= -8 && delta <= 11;
       if (!byDelta && (A.lagIndex < 0 || A.lagIndex >= 32 * (fs >> 1))) tw = 0;
    }
+   /* ... and every index inside the domain silk_encode_indices asserts (a record outside it is judged by TLC, not re-encoded) */
+   {
+      int to = 2 * A.signalType + A.quantOffsetType, ncont = fs == 8 ? (nb == 4 ? 11 : 3) : (nb == 4 ? 34 : 12);
+      if (to < 0 || to >= 6 || (lbrr && to < 2) || (!lbrr && ((to < 2) != (vad == 0)))) tw = 0;
+      if (A.GainsIndices[0] < 0 || A.GainsIndices[0] >= (cond == CODE_CONDITIONALLY ? 41 : 64)) tw = 0;
+      for (i = 1; i < nb; i++) if (A.GainsIndices[i] < 0 || A.GainsIndices[i] >= 41) tw = 0;
+      if (A.NLSFIndices[0] < 0 || A.NLSFIndices[0] >= 32) tw = 0;
+      for (i = 1; i <= order; i++) if (A.NLSFIndices[i] < -10 || A.NLSFIndices[i] > 10) tw = 0;
+      if (A.NLSFInterpCoef_Q2 < 0 || A.NLSFInterpCoef_Q2 > 4 || A.Seed < 0 || A.Seed > 3) tw = 0;
+      if (A.signalType == TYPE_VOICED) {
+         if (A.contourIndex < 0 || A.contourIndex >= ncont || A.PERIndex < 0 || A.PERIndex > 2 || A.LTP_scaleIndex < 0 || A.LTP_scaleIndex > 2 ||
+             (cond != CODE_INDEPENDENTLY && A.LTP_scaleIndex != 0)) tw = 0;
+         for (i = 0; tw && i < nb; i++) if (A.LTPIndex[i] < 0 || A.LTPIndex[i] >= (8 << A.PERIndex)) tw = 0;
+      }
+   }
    js_int("tw", tw);
    if (tw) {
       SideInfoIndices *ex; opus_uint32 e_i, e_f, t_i, t_f; int et_i, et_f, ef_f, tt_i, tt_f, eerr, erl, enby;
@@ -266,19 +281,19 @@ static void frame_case(char *line)
 /* whole codec: packets of the real Opus encoder in the speech mode; the model parses the bytes */
 static void opus_exec(char *line)
 {
-   int a[8], n = read_ints(line + 1, a, 8), id, fs, ch, ms, br, cx, np, k, i, err = 0, frame;
+   int a[9], n = read_ints(line + 1, a, 9), id, fs, ch, ms, br, cx, np, k, i, err = 0, frame, fec;
    static float in[2 * 960]; static opus_int16 out[2 * 5760]; static unsigned char pkt[1500]; static int pb[1500];
    OpusEncoder *oe; OpusDecoder *od; hx_rng r; double ph = 0, env = 0;
    if (n < 8) { js_open("bad"); js_str("why", "head"); js_close(); return; }
-   id = a[0]; fs = a[1]; ch = a[2]; ms = a[3]; br = a[4]; cx = a[5]; r.s = (uint64_t)a[6]; np = a[7];
-   if (!(fs == 8000 || fs == 12000 || fs == 16000) || ch < 1 || ch > 2 || !(ms == 10 || ms == 20 || ms == 40 || ms == 60) || br < 5000 || br > 80000 || cx < 0 || cx > 10 || np < 1 || np > 400)
+   id = a[0]; fs = a[1]; ch = a[2]; ms = a[3]; br = a[4]; cx = a[5]; r.s = (uint64_t)a[6]; np = a[7]; fec = n > 8 ? a[8] : 0;
+   if (!(fs == 8000 || fs == 12000 || fs == 16000) || ch < 1 || ch > 2 || !(ms == 10 || ms == 20 || ms == 40 || ms == 60) || br < 5000 || br > 80000 || cx < 0 || cx > 10 || np < 1 || np > 400 || fec < 0 || fec > 1)
       { js_open("bad"); js_int("id", id); js_str("why", "args"); js_close(); return; }
    frame = fs / 1000 * ms;
    oe = opus_encoder_create(fs, ch, OPUS_APPLICATION_VOIP, &err); od = opus_decoder_create(fs, ch, &err);
    if (!oe || !od) { js_open("bad"); js_str("why", "create"); js_close(); return; }
    opus_encoder_ctl(oe, OPUS_SET_BITRATE(br)); opus_encoder_ctl(oe, OPUS_SET_COMPLEXITY(cx));
    opus_encoder_ctl(oe, OPUS_SET_FORCE_MODE(MODE_SILK_ONLY));
-   opus_encoder_ctl(oe, OPUS_SET_INBAND_FEC(0)); opus_encoder_ctl(oe, OPUS_SET_DTX(0));
+   opus_encoder_ctl(oe, OPUS_SET_INBAND_FEC(fec)); opus_encoder_ctl(oe, OPUS_SET_PACKET_LOSS_PERC(fec ? 20 : 0)); opus_encoder_ctl(oe, OPUS_SET_DTX(0));
    for (k = 0; k < np; k++) {
       int len, dr; opus_uint32 erng = 0, drng = 0; unsigned char *d;
       int active = (k % 9) != 6, loud = (k % 11) == 4;
@@ -301,7 +316,7 @@ static void opus_exec(char *line)
       dr = opus_decode(od, d, len, out, 5760, 0);
       opus_decoder_ctl(od, OPUS_GET_FINAL_RANGE(&drng));
       hx_disarm();
-      js_open("pk"); js_int("id", id); js_int("f", k); js_int("fsr", fs); js_int("ch", ch); js_int("ms", ms); js_int("br", br);
+      js_open("pk"); js_int("id", id); js_int("f", k); js_int("fsr", fs); js_int("ch", ch); js_int("ms", ms); js_int("br", br); js_int("fec", fec);
       js_int("er", len); js_int("n", len); js_int("frame", frame); js_int("dr", dr);
       for (i = 0; i < len; i++) pb[i] = d[i]; js_arr_i("b", pb, len);
       js_halves("eh", "el", erng); js_halves("rh", "rl", drng);
